@@ -1,0 +1,53 @@
+//go:build verif
+
+package stage
+
+import (
+	"context"
+	"time"
+
+	"github.com/lindb/lindb/internal/concurrent"
+	"github.com/lindb/lindb/internal/linmetric"
+	"github.com/lindb/lindb/metrics"
+)
+
+// verifStage is the real baseStage with a scripted plan and scripted next stages.
+// Simulation hook (build tag verif), not part of the shipped binary.
+type verifStage struct {
+	baseStage
+	id         string
+	plan       PlanNode
+	next       func() []Stage
+	onComplete func()
+}
+
+// NewVerifStage builds a stage that executes through baseStage.Execute; pool == nil makes it inline.
+func NewVerifStage(ctx context.Context, pool concurrent.Pool, id string, plan PlanNode, next func() []Stage, onComplete func()) Stage {
+	s := &verifStage{id: id, plan: plan, next: next, onComplete: onComplete}
+	s.stageType = ShardScan
+	if pool != nil {
+		s.ctx = ctx
+		s.execPool = pool
+	}
+	return s
+}
+
+func (s *verifStage) Plan() PlanNode     { return s.plan }
+func (s *verifStage) Identifier() string { return s.id }
+func (s *verifStage) NextStages() []Stage {
+	if s.next == nil {
+		return nil
+	}
+	return s.next()
+}
+
+func (s *verifStage) Complete() {
+	if s.onComplete != nil {
+		s.onComplete()
+	}
+}
+
+// VerifNewPool exposes the real worker pool (internal/concurrent cannot be imported from outside the module).
+func VerifNewPool(name string, workers int, idle time.Duration) concurrent.Pool {
+	return concurrent.NewPool(name, workers, idle, metrics.NewConcurrentStatistics(name, linmetric.StorageRegistry))
+}
